@@ -34,11 +34,16 @@ pub enum Kind {
     Community,
     /// `RS-P<i> AND <AS1>`
     GoodAndRegex(u16, u16),
+    /// evaluable through a filter-set: `FLTR-G<i>`, defined as `RS-P<i>`
+    GoodViaFilterSet(u16, u16),
+    /// a chain of 1..10 filter-sets that ends in an unknown as-set: the evaluation resolves all of
+    /// them and then fails
+    FilterSetChainToUnknown(u8),
 }
 
 impl Kind {
     pub fn evaluable(&self) -> bool {
-        matches!(self, Kind::Good(..))
+        matches!(self, Kind::Good(..) | Kind::GoodViaFilterSet(..))
     }
     fn label(&self) -> &'static str {
         match self {
@@ -51,6 +56,8 @@ impl Kind {
             Kind::AsPathRegex => "as-path-regexp",
             Kind::Community => "attribute-match",
             Kind::GoodAndRegex(..) => "set-AND-as-path-regexp",
+            Kind::GoodViaFilterSet(..) => "good-via-filter-set",
+            Kind::FilterSetChainToUnknown(_) => "filter-set-chain-to-unknown-as-set",
         }
     }
 }
@@ -69,7 +76,7 @@ pub fn build(policies: &[Kind]) -> (Vec<Stmt>, Db, Vec<Option<Expr>>) {
     let goods: Vec<(u16, u16)> = policies
         .iter()
         .map(|k| match k {
-            Kind::Good(a, b) | Kind::GoodAndRegex(a, b) => (*a, *b),
+            Kind::Good(a, b) | Kind::GoodAndRegex(a, b) | Kind::GoodViaFilterSet(a, b) => (*a, *b),
             _ => (0, 0),
         })
         .collect();
@@ -95,6 +102,19 @@ pub fn build(policies: &[Kind]) -> (Vec<Stmt>, Db, Vec<Option<Expr>>) {
             Kind::AsPathRegex => "<^AS65001$>".into(),
             Kind::Community => "community(65000:1)".into(),
             Kind::GoodAndRegex(..) => format!("{rs} AND <AS1>"),
+            Kind::GoodViaFilterSet(..) => {
+                let n = format!("FLTR-G{i}");
+                db.filter_sets.insert(n.clone(), vec![rs.clone()]);
+                n
+            }
+            Kind::FilterSetChainToUnknown(d) => {
+                let d = (*d).clamp(1, 10) as usize;
+                for k in 1..=d {
+                    let next = if k == d { format!("AS-NOSUCH{i}") } else { format!("FLTR-C{i}-{}", k + 1) };
+                    db.filter_sets.insert(format!("FLTR-C{i}-{k}"), vec![next]);
+                }
+                format!("FLTR-C{i}-1")
+            }
         };
         if !k.evaluable() && !matches!(k, Kind::GoodAndRegex(..)) {
             db.route_sets.remove(&rs);
@@ -155,6 +175,8 @@ fn kind_strategy() -> impl Strategy<Value = Kind> {
         1 => Just(Kind::AsPathRegex),
         1 => Just(Kind::Community),
         1 => (m(), m()).prop_map(|(a, b)| Kind::GoodAndRegex(a, b)),
+        3 => (m(), m()).prop_map(|(a, b)| Kind::GoodViaFilterSet(a, b)),
+        2 => (1u8..11).prop_map(Kind::FilterSetChainToUnknown),
     ]
 }
 
@@ -167,7 +189,7 @@ impl Prop for C15 {
         }
     }
     fn rule(&self) -> String {
-        "2..7 managed policies of which at least one is valid RPSL but unevaluable (unknown as-set, \
+        "2..9 managed policies (some evaluable only through a filter-set) of which at least one is valid RPSL but unevaluable (a chain of up to 10 filter-sets ending in an unknown as-set, unknown as-set, \
          IRR error E/F to the set query, unknown route-set / filter-set, PeerAS, AS-path regular \
          expression, attribute match, set AND AS-path regexp) at generated positions, run through \
          the agent's real Updater::run with the real evaluator against fake IRRd and fake Junos. \
@@ -209,7 +231,7 @@ impl Prop for C15 {
     }
     fn strategy(&self, _tier: Tier) -> BoxedStrategy<Case> {
         (
-            prop::collection::vec(kind_strategy(), 2..7)
+            prop::collection::vec(kind_strategy(), 2..10)
                 .prop_filter("at least one unevaluable", |v| v.iter().any(|k| !k.evaluable())),
             any::<bool>(),
         )
@@ -263,7 +285,7 @@ impl Prop for C15 {
         obs.nontrivial = case
             .policies
             .iter()
-            .any(|k| matches!(k, Kind::Good(a, b) if *a != 0 || *b != 0));
+            .any(|k| matches!(k, Kind::Good(a, b) | Kind::GoodViaFilterSet(a, b) if *a != 0 || *b != 0));
         // only constructs that can make the evaluator panic are candidates for the key
         let mut culprits: Vec<&str> = bad
             .iter()
